@@ -16,6 +16,8 @@ From Flocq Require Import IEEE754.Binary IEEE754.Bits.
 From GV Require Import Base.Result Model.Num Model.RuntimeIndex Gen.PanicSites
   Proofs.C07.Arith Proofs.C07.Runtime Proofs.C07.Simple Proofs.C07.Basic Proofs.C07.Depth Proofs.C07.Run
   Proofs.C07.Regress Proofs.C07.Coverage.
+From GV Require Model.StoreBase Model.BasicStore Model.StoreOps Proofs.C15.Layout Proofs.C15.Stable Proofs.C15.History Proofs.C07.TextInv.
+From GV Require Import Proofs.C07.Reachable.
 Import ListNotations.
 Local Open Scope N_scope.
 
@@ -143,6 +145,104 @@ Theorem C07_conversion_depth : forall max t, (render_depth max 0 t <= max)%nat.
 Proof. exact conversion_depth_bounded. Qed.
 Print Assumptions C07_conversion_depth.
 
+(* ---- BasicGarnishData, for every REACHABLE store: the hypotheses above discharged from the invariant C15
+   proves for Model/BasicStore.v (fresh store with progressing growth settings, then any history of the C15
+   operation vocabulary).  [view s b] / [hlen s] are the RuntimeIndex description of block b / the heap of s
+   (Proofs/C07/Reachable.v).  The theorems about text runs and association counts use the strengthened
+   invariant of Proofs/C07/TextInv.v and histories whose text operations write the character count as header
+   ([reachable_wf]; what /repo does since 626dd96). *)
+Theorem C07_every_history_reaches : forall si sj ss se sd sc,
+  History.progressing si -> History.progressing sj -> History.progressing ss ->
+  History.progressing se -> History.progressing sd -> History.progressing sc ->
+  forall ops, exists s, reachable s /\ exists s0 rs,
+    BasicStore.new_with_settings si sj ss se sd sc = Ok (s0, StoreBase.Done tt) /\ StoreOps.run StoreOps.bstep ops s0 = Ok (s, rs).
+Proof. exact every_history_reaches. Qed.
+Print Assumptions C07_every_history_reaches.
+
+Theorem C07_block_get_reachable : forall s b index, reachable s -> no_panic (block_get (hlen s) (view s b) index).
+Proof. exact block_get_reachable. Qed.
+Print Assumptions C07_block_get_reachable.
+
+Theorem C07_block_prefix_slice_reachable : forall s b, reachable s -> no_panic (block_prefix_slice (hlen s) (view s b)).
+Proof. exact block_prefix_slice_reachable. Qed.
+Print Assumptions C07_block_prefix_slice_reachable.
+
+Theorem C07_block_push_reachable : forall s b, reachable s ->
+  exists s1, BasicStore.grow_if_full b s = Ok (s1, StoreBase.Done tt) /\ Layout.Inv s1 /\
+    exists b', block_push (hlen s1) (view s1 b) = Ok b' /\ block_ok (hlen s1) b'.
+Proof. exact block_push_reachable. Qed.
+Print Assumptions C07_block_push_reachable.
+
+Theorem C07_realloc_copy_reachable : forall s new b, reachable s -> (forall b', (Layout.cur s b' <= new b')%nat) ->
+  realloc_copy (Layout.cur s b) (N.of_nat (BasicStore.total_size new)) (N.of_nat (Layout.offset new b)) (hlen s)
+               (b_start (view s b)) = Ok tt.
+Proof. exact realloc_copy_reachable. Qed.
+Print Assumptions C07_realloc_copy_reachable.
+
+Theorem C07_extents_list_reachable : forall s p len ac es ee, reachable s ->
+  nth_error (Stable.data s) p = Some (BasicStore.CList len ac) ->
+  no_panic (basic_iter_slice (hlen s) (view s BasicStore.BData) (N.of_nat p) (N.of_nat len) es ee).
+Proof. exact extents_list_reachable. Qed.
+Print Assumptions C07_extents_list_reachable.
+
+Theorem C07_end_list_slice_reachable : forall s p len count, reachable s ->
+  nth_error (Stable.data s) p = Some (BasicStore.CUninitializedList len count) ->
+  no_panic (basic_end_list_slice (hlen s) (view s BasicStore.BData) (N.of_nat p) (N.of_nat len)).
+Proof. exact end_list_slice_reachable. Qed.
+Print Assumptions C07_end_list_slice_reachable.
+
+Theorem C07_pop_frame_reachable : forall s i, reachable s -> BasicStore.cur_frame s = Some i ->
+  no_panic (pop_frame_index (N.of_nat i)).
+Proof. exact pop_frame_reachable. Qed.
+Print Assumptions C07_pop_frame_reachable.
+
+Theorem C07_every_wf_history_reaches : forall si sj ss se sd sc,
+  History.progressing si -> History.progressing sj -> History.progressing ss ->
+  History.progressing se -> History.progressing sd -> History.progressing sc ->
+  forall ops, Forall TextInv.wf_op ops -> exists s, reachable_wf s /\ exists s0 rs,
+    BasicStore.new_with_settings si sj ss se sd sc = Ok (s0, StoreBase.Done tt) /\ StoreOps.run StoreOps.bstep ops s0 = Ok (s, rs).
+Proof. exact every_wf_history_reaches. Qed.
+Print Assumptions C07_every_wf_history_reaches.
+
+Theorem C07_extents_text_reachable : forall s p c n es ee, reachable_wf s ->
+  nth_error (Stable.data s) p = Some c -> text_header c n ->
+  no_panic (basic_iter_slice (hlen s) (view s BasicStore.BData) (N.of_nat p) (N.of_nat n) es ee).
+Proof. exact extents_text_reachable. Qed.
+Print Assumptions C07_extents_text_reachable.
+
+Theorem C07_text_slices_reachable : forall s p c n, reachable_wf s ->
+  nth_error (Stable.data s) p = Some c -> text_header c n ->
+  no_panic (data_run_slice (hlen s) (view s BasicStore.BData) (N.of_nat p) (N.of_nat n)) /\
+  no_panic (bytes_conv_slice (hlen s) (N.of_nat p) (N.of_nat n)).
+Proof. exact text_slices_reachable. Qed.
+Print Assumptions C07_text_slices_reachable.
+
+Theorem C07_text_cells_reachable : forall s p n, reachable_wf s ->
+  (nth_error (Stable.data s) p = Some (BasicStore.CCharList n) ->
+     forall k, (1 <= k <= n)%nat -> exists x, nth_error (Stable.data s) (p + k) = Some (BasicStore.CChar x)) /\
+  (nth_error (Stable.data s) p = Some (BasicStore.CByteList n) ->
+     forall k, (1 <= k <= n)%nat -> exists x, nth_error (Stable.data s) (p + k) = Some (BasicStore.CByte x)).
+Proof. exact text_cells_reachable. Qed.
+Print Assumptions C07_text_cells_reachable.
+
+Theorem C07_assoc_slice_reachable : forall s p len ac, reachable_wf s ->
+  nth_error (Stable.data s) p = Some (BasicStore.CList len ac) ->
+  no_panic (basic_assoc_slice (hlen s) (view s BasicStore.BData) (N.of_nat p) (N.of_nat len) (N.of_nat ac)).
+Proof. exact assoc_slice_reachable. Qed.
+Print Assumptions C07_assoc_slice_reachable.
+
+(* the strengthened invariant is preserved by every operation (what the four theorems above rest on) *)
+Theorem C07_text_invariant_step : forall o s s' r, Stable.G s -> TextInv.X (Stable.data s) -> TextInv.wf_op o ->
+  StoreOps.bstep o s = Ok (s', r) -> TextInv.X (Stable.data s').
+Proof. exact TextInv.step_X. Qed.
+Print Assumptions C07_text_invariant_step.
+
+(* the side condition on histories is necessary: with a header that announces more characters than were pushed
+   (C15's model allows it; /repo did it for multi-byte text before 626dd96) a reachable store violates the invariant *)
+Theorem C07_text_invariant_needs_wf : exists s, reachable s /\ ~ TextInv.X (Stable.data s).
+Proof. exact text_invariant_needs_wf. Qed.
+Print Assumptions C07_text_invariant_needs_wf.
+
 (* ---- the inventory tie *)
 Theorem C07_sites_covered : forall id lemma, In (id, lemma) modelled_site_lemmas -> In lemma proved.
 Proof. exact every_modelled_site_has_a_lemma. Qed.
@@ -177,6 +277,9 @@ Proof. cbv zeta. repeat split; try (vm_compute; intros; discriminate); vm_comput
 Example C07_ex_machine :
   C07_full_statement N toy_step (fun _ => True) /\ run N toy_step 2 3 = Ok 1 /\ run N toy_step 3 3 = Err 1.
 Proof. exact toy_run_example. Qed.
+
+Example C07_ex_reachable : Forall TextInv.wf_op ex_history7 /\ ex_history7_statement.
+Proof. exact ex_history7_runs. Qed.
 
 Example C07_ex_boundaries : forall powf,
   num_binop_res powf OpDiv (Int i32_min) (Int (-1)) = Ok None /\
